@@ -40,6 +40,16 @@ type c20Case struct {
 	// ENHANCEDSTATUSCODES is advertised before the handshake exactly when it is NOT advertised after it
 	// (ESCAdvertised always describes the EHLO reply in force while sending)
 	StartTLS string `json:"starttls,omitempty"`
+	// QuotedRcpts: the recipients' local parts hold a blank ("r0 m1"@rcpt.example): on the wire they are quoted, the
+	// Msg - and the SendError that names the refused ones - knows them as mailboxes (r0 m1@rcpt.example)
+	QuotedRcpts bool `json:"quoted_recipients,omitempty"`
+}
+
+func (c *c20Case) rcptMailbox(j, i int) string {
+	if c.QuotedRcpts {
+		return fmt.Sprintf("r%d m%d@rcpt.example", j, i)
+	}
+	return fmt.Sprintf("r%dm%d@rcpt.example", j, i)
 }
 
 var c20TextKinds = []string{"esc", "none", "esc-elsewhere", "multiline", "esc-midline", "esc-longer-dotted", "esc-with-suffix", "esc-only"}
@@ -99,7 +109,11 @@ func runC20Case(r *ev.Run, c c20Case) {
 	for i := 0; i < c.Batch; i++ {
 		var rc []string
 		for j := 0; j < c.NRcpt; j++ {
-			rc = append(rc, fmt.Sprintf("r%dm%d@rcpt.example", j, i))
+			if c.QuotedRcpts {
+				rc = append(rc, fmt.Sprintf("\"r%d m%d\"@rcpt.example", j, i))
+			} else {
+				rc = append(rc, c.rcptMailbox(j, i))
+			}
 		}
 		m, err := simpleMsg(fmt.Sprintf("c20-%d", i), fmt.Sprintf("m%d@sender.example", i), rc, "quoted-printable", "body\r\n")
 		if err != nil {
@@ -156,7 +170,9 @@ func runC20Case(r *ev.Run, c c20Case) {
 				case "RCPT":
 					if c.Pos == "RCPT" && inSlots(cur) {
 						j := -1
-						if i := strings.Index(st.Line, "<r"); i >= 0 {
+						if i := strings.Index(st.Line, "<\"r"); i >= 0 {
+							fmt.Sscanf(st.Line[i+3:], "%d", &j)
+						} else if i := strings.Index(st.Line, "<r"); i >= 0 {
 							fmt.Sscanf(st.Line[i+2:], "%d", &j)
 						}
 						if j >= 0 && c.RcptMask&(1<<j) != 0 {
@@ -165,7 +181,7 @@ func runC20Case(r *ev.Run, c c20Case) {
 							if c.Code2 != 0 && c.RcptMask>>(j+1) == 0 {
 								code = c.Code2
 							}
-							rejectedBy[cur] = append(rejectedBy[cur], fmt.Sprintf("r%dm%d@rcpt.example", j, cur))
+							rejectedBy[cur] = append(rejectedBy[cur], c.rcptMailbox(j, cur))
 							return neg(code)
 						}
 					}
@@ -360,6 +376,7 @@ func runC20(r *ev.Run, rep *ev.ReplayDoc) ev.Summary {
 					if n%6 == 1 {
 						c.StartTLS = []string{"flip", "same"}[(n/6)%2]
 					}
+					c.QuotedRcpts = n%4 == 2
 					cases = append(cases, c)
 				}
 			}
@@ -389,6 +406,7 @@ func runC20(r *ev.Run, rep *ev.ReplayDoc) ev.Summary {
 							if batch >= 2 && (n/3)%4 == 0 {
 								c.SlotMask = []int{3, (1 << batch) - 1, 1<<c.Slot | 1<<((c.Slot+1)%batch)}[(n/12)%3]
 							}
+							c.QuotedRcpts = n%4 == 2
 							cases = append(cases, c)
 						}
 					}
